@@ -50,6 +50,7 @@ pub fn profile_for(prop: &str, thorough: bool) -> Profile {
             p.knob_permille = 150;
         }
         "C02" => {
+            p.class_b_permille = 120;
             p.kernel_fault_permille = 120;
             p.preset_incident_permille = 40;
             p.class_a_permille = 250;
@@ -63,6 +64,7 @@ pub fn profile_for(prop: &str, thorough: bool) -> Profile {
             });
         }
         "C06" => {
+            p.class_b_permille = 60;
             p.kernel_fault_permille = 100;
             p.class_a_permille = 250;
             p.knob_permille = 200;
@@ -120,6 +122,7 @@ pub fn profile_for(prop: &str, thorough: bool) -> Profile {
             p.families = &["grid", "dyadic", "jitter", "dyadic"];
         }
         "C09" => {
+            p.class_b_permille = 120;
             p.kernel_fault_permille = 80;
             p.multi = true;
             p.random_ctor = true;
@@ -143,6 +146,7 @@ pub fn profile_for(prop: &str, thorough: bool) -> Profile {
             });
         }
         "C11" => {
+            p.class_b_permille = 150;
             p.kernel_fault_permille = 120;
             p.multi = true;
             p.class_a_permille = 150;
@@ -192,6 +196,7 @@ pub fn profile_for(prop: &str, thorough: bool) -> Profile {
             p.families = &["dyadic", "dyadic", "grid", "jitter", "cosph", "offcosph", "offgrid", "cluster"];
         }
         "C16" => {
+            p.class_b_permille = 80;
             p.kernel_fault_permille = 80;
             p.toroidal = true;
             p.always_construct = true;
@@ -212,6 +217,7 @@ pub fn profile_for(prop: &str, thorough: bool) -> Profile {
             });
         }
         "C15" => {
+            p.class_b_permille = 120;
             p.kernel_fault_permille = 80;
             p.preset_incident_permille = 40;
             p.class_a_permille = 150;
